@@ -84,7 +84,7 @@ def absmv(M, x):
     return A @ np.abs(np.asarray(x, dtype=float).ravel())
 
 
-def residual_err(M, x, b, rows=None, solver_output=False):
+def residual_err(M, x, b, rows=None, solver_output=False, solved=None):
     """normalised residual of M x = b, row by row: |Mx-b| / (|M||x| + |b|).
 
     solver_output=True: x is the output of a direct sparse solve.  Gaussian elimination with partial pivoting is
@@ -98,6 +98,12 @@ def residual_err(M, x, b, rows=None, solver_output=False):
     s = absmv(M, x) + np.abs(b)
     if solver_output and s.size:
         smax = float(np.max(s[np.isfinite(s)])) if np.any(np.isfinite(s)) else 0.0
+        if solved is not None:
+            # the system that was actually solved may have rows (boundary rows) far larger than any row of M: the solver's
+            # norm-wise backward error is relative to THOSE
+            ss = absmv(solved[0], x) + np.abs(np.asarray(solved[1], dtype=float).ravel())
+            if np.any(np.isfinite(ss)):
+                smax = max(smax, float(np.max(ss[np.isfinite(ss)])))
         s = s + (64.0 * len(s) * np.finfo(float).eps / TOL) * smax
     if rows is not None:
         r, s = r[rows], s[rows]
